@@ -501,6 +501,16 @@ def run_check(prop, tier, seed):
         if not ok:
             env.coq_ok = False
             env.proof_broken("translator", msg)
+            # the sources no longer have the shape the translator understands: nothing is
+            # proved on this run.  The search for a failing input still runs, generating its
+            # inputs from the last tables that could be read (stale, used for inputs only).
+            try:
+                with open(os.path.join(GEN, "tables.json"), encoding="utf-8") as f:
+                    tables = json.load(f)
+                env.tables = tables
+                env.note("tables_stale", True)
+            except Exception:  # noqa: BLE001
+                tables = None
         else:
             t = time.time()
             ok, out = coq_make([target])
